@@ -160,6 +160,9 @@ def gen_c12_random(rnd, tier):
         rnd.shuffle(faces)
         rec = {'m': 'topo', 'op': 'mesh', 'wd': 3000, 'reps': 4, 'nv': len(vpos), 'vpos': vpos, 'faces': faces,
                'sc': rnd.choice((0, 0, -22, -10, 12))}
+        if rnd.random() < 0.15:
+            rec['vpad'] = rnd.choice((65530, 66000, 70001))      # vertex indices beyond 16 bits
+            rec['wd'] = 6000
         out.append(rec)
         # the same kind of mesh assembled in two steps: part one is queried, then a shifted copy of another grid is appended
         if rnd.random() < 0.4:
